@@ -433,6 +433,7 @@ impl<T: UciTx, H: Heuristic, M: MoveOrder> Search<T, H, M> {
             );
 
             if self.flags.stop_as_soon_as_possible {
+                self.state.bitboard.unmake(*mv);
                 return ValuedMove::new(0, None, None);
             }
 
